@@ -74,20 +74,24 @@ def takeChars : Nat → List Nat → List Nat
 inductive Align where | left | right | center
 deriving DecidableEq, Repr
 
+/-- pad `s` to at least `w` chars with the fill byte on the side(s) the alignment says -/
+def padTo (s : List Nat) (w : Nat) (align : Align) (fill : Nat) : List Nat :=
+  if w ≤ charCount s then s
+  else match align with
+    | .left => s ++ List.replicate (w - charCount s) fill
+    | .right => List.replicate (w - charCount s) fill ++ s
+    | .center => List.replicate ((w - charCount s) / 2) fill ++ s ++ List.replicate ((w - charCount s + 1) / 2) fill
+
+/-- the precision part of `f.pad(s)`: at most `p` chars -/
+def truncTo (bs : List Nat) : Option Nat → List Nat
+  | none => bs
+  | some p => takeChars p bs
+
 /-- `f.pad(s)` with optional width and precision, fill byte `fill` (an ASCII character) -/
 def fmtPad (bs : List Nat) (width prec : Option Nat) (align : Align) (fill : Nat) : List Nat :=
-  let s := match prec with | none => bs | some p => takeChars p bs
   match width with
-  | none => s
-  | some w =>
-    let n := charCount s
-    if w ≤ n then s
-    else
-      let pad := w - n
-      match align with
-      | .left => s ++ List.replicate pad fill
-      | .right => List.replicate pad fill ++ s
-      | .center => List.replicate (pad / 2) fill ++ s ++ List.replicate ((pad + 1) / 2) fill
+  | none => truncTo bs prec
+  | some w => padTo (truncTo bs prec) w align fill
 
 end ActixNet.Utf8
 
